@@ -24,6 +24,9 @@ type Case struct {
 	Raw      *Config `json:"raw,omitempty"`
 	PageSize int     `json:"page_size"`
 	Mode     string  `json:"mode"` // "http" or "files"
+	// what the generator knows about the acceptance of the files: "accept", "reject:<diagnostic>",
+	// "" = no expectation (replay files written before this field existed)
+	Expect string `json:"expect,omitempty"`
 }
 
 var (
@@ -305,7 +308,8 @@ func genFile(rng *RNG, opt genOpt, kind string, pols []string) *Config {
 	return b.cfg
 }
 
-func genTarget(rng *RNG, opt genOpt) (v4, v6, raw *Config) {
+func genTarget(rng *RNG, opt genOpt) (v4, v6, raw *Config, expect string) {
+	expect = "accept"
 	np := 1 + rng.Intn(2)
 	if rng.Chance(15) {
 		np = 3
@@ -331,7 +335,9 @@ func genTarget(rng *RNG, opt genOpt) (v4, v6, raw *Config) {
 		}
 		if opt.rawPolicy {
 			// no prefix at all, or the prefix somewhere else than at the start / in another case
-			rp = append(rp, Pick(rng, []string{"my-policy", extPolicies[0], "Customer-Netspoc-dmz", "xNetspoc-v1", "netspoc-v1"}))
+			bad := Pick(rng, []string{"my-policy", extPolicies[0], "Customer-Netspoc-dmz", "xNetspoc-v1", "netspoc-v1"})
+			rp = append(rp, bad)
+			expect = "reject:Must only define policy where name has prefix 'Netspoc': " + bad
 		}
 		raw = genFile(rng, opt, "raw", rp)
 		if opt.rawPolicy {
@@ -350,14 +356,18 @@ func genTarget(rng *RNG, opt genOpt) (v4, v6, raw *Config) {
 						Service: "ANY", Src: "ANY", Dst: "ANY"}}
 				}
 				raw.Policies[0].Rules[0].Id = Pick(rng, []string{"r1", "r3-2-1", "r0x"})
+				expect = "reject:Must not use rule name starting with 'r<NUM>': " + raw.Policies[0].Rules[0].Id
 			case 1:
 				raw.Groups = append(raw.Groups, Group{Id: Pick(rng, []string{"mygroup", "netspoc-x", "Netspo", "my-Netspoc-grp", "xNetspoc-web"}), ExprId: "id",
 					RType: "IPAddressExpression", Addrs: []string{"10.1.1.10"}})
+				expect = "reject:Must only define group where name has prefix 'Netspoc': " + raw.Groups[len(raw.Groups)-1].Id
 			case 2:
 				raw.Groups = append(raw.Groups, Group{Id: Pick(rng, []string{"Netspoc-g1", "Netspoc-g0-1"}), ExprId: "id",
 					RType: "IPAddressExpression", Addrs: []string{"10.1.1.10"}})
+				expect = "reject:Must not use group name starting with 'Netspoc-g<NUM>': " + raw.Groups[len(raw.Groups)-1].Id
 			case 3:
 				raw.Services = append(raw.Services, Service{Pick(rng, []string{"Netspoc-tcp_81", "Netspoc-ra", "raw", "x-Netspoc-raw-y", "aNetspoc-raw"}), l4("TCP", "81")})
+				expect = "reject:Must only define service where name has prefix 'Netspoc-raw': " + raw.Services[len(raw.Services)-1].Id
 			}
 		}
 	}
@@ -857,7 +867,7 @@ func genCase(rng *RNG, stream string, thorough bool) *Case {
 		opt.rawBad = true
 	}
 	c := &Case{Stream: stream, Mode: "http"}
-	c.V4, c.V6, c.Raw = genTarget(rng, opt)
+	c.V4, c.V6, c.Raw, c.Expect = genTarget(rng, opt)
 	if stream == "dupcontent" && len(c.V4.Groups) >= 2 && rng.Chance(50) {
 		// two TARGET groups with the same content (outside the hypothesis distinctContent of the idempotence theorem)
 		i, j := rng.Intn(len(c.V4.Groups)), rng.Intn(len(c.V4.Groups))
